@@ -269,6 +269,9 @@ fn case(ctx: &Ctx, rng: &mut Rng, rep: &mut Report) {
 pub fn run(args: &Args, rep: &mut Report) {
     let ctx = Ctx::new();
     let n = args.cases(60_000, 1_000_000);
+    if args.shard == 0 && args.only_case.is_none() {
+        crate::c19_ff::recorded(&ctx, rep);
+    }
     run_cases(args, "c19", n, rep, |i, rng, rep| {
         if i % 4 == 3 {
             crate::c19_ff::case(&ctx, rng, rep, args.thorough());
